@@ -9,26 +9,20 @@ Import ListNotations.
 Local Open Scope R_scope.
 
 Lemma dsquare_chain_ok1 : dsquare_chain_stmt1.
-Proof. unfold dsquare_chain_stmt1. jac ltac:(unfold f_dsquare_chain1_l, f_dsquare_chain1, D_dsquare_chain1_l, D_dsquare_chain1) ltac:(idtac). Qed.
+Proof. unfold dsquare_chain_stmt1. jac_t 600 ltac:(lazy beta iota zeta delta [upd nthR List.firstn List.skipn List.app List.nth Nat.mul Nat.add f_dsquare_chain1_l f_dsquare_chain1 D_dsquare_chain1_l D_dsquare_chain1]) ltac:(idtac). Qed.
 Lemma dsquare_chain_ok2 : dsquare_chain_stmt2.
-Proof. unfold dsquare_chain_stmt2. jac ltac:(unfold f_dsquare_chain2_l, f_dsquare_chain2, D_dsquare_chain2_l, D_dsquare_chain2) ltac:(idtac). Qed.
-Lemma dsquare_chain_ok3 : dsquare_chain_stmt3.
-Proof. unfold dsquare_chain_stmt3. jac ltac:(unfold f_dsquare_chain3_l, f_dsquare_chain3, D_dsquare_chain3_l, D_dsquare_chain3) ltac:(idtac). Qed.
+Proof. unfold dsquare_chain_stmt2. jac_t 600 ltac:(lazy beta iota zeta delta [upd nthR List.firstn List.skipn List.app List.nth Nat.mul Nat.add f_dsquare_chain2_l f_dsquare_chain2 D_dsquare_chain2_l D_dsquare_chain2]) ltac:(idtac). Qed.
 Lemma tpld_chain_ok1 : tpld_chain_stmt1.
-Proof. unfold tpld_chain_stmt1. jac ltac:(unfold f_tpld_chain1_l, f_tpld_chain1, D_tpld_chain1_l, D_tpld_chain1) ltac:(idtac). Qed.
+Proof. unfold tpld_chain_stmt1. jac_t 600 ltac:(lazy beta iota zeta delta [upd nthR List.firstn List.skipn List.app List.nth Nat.mul Nat.add f_tpld_chain1_l f_tpld_chain1 D_tpld_chain1_l D_tpld_chain1]) ltac:(idtac). Qed.
 Lemma tpld_chain_ok2 : tpld_chain_stmt2.
-Proof. unfold tpld_chain_stmt2. jac ltac:(unfold f_tpld_chain2_l, f_tpld_chain2, D_tpld_chain2_l, D_tpld_chain2) ltac:(idtac). Qed.
-Lemma tpld_chain_ok3 : tpld_chain_stmt3.
-Proof. unfold tpld_chain_stmt3. jac ltac:(unfold f_tpld_chain3_l, f_tpld_chain3, D_tpld_chain3_l, D_tpld_chain3) ltac:(idtac). Qed.
+Proof. unfold tpld_chain_stmt2. jac_t 600 ltac:(lazy beta iota zeta delta [upd nthR List.firstn List.skipn List.app List.nth Nat.mul Nat.add f_tpld_chain2_l f_tpld_chain2 D_tpld_chain2_l D_tpld_chain2]) ltac:(idtac). Qed.
 Lemma tprd_chain_ok1 : tprd_chain_stmt1.
-Proof. unfold tprd_chain_stmt1. jac ltac:(unfold f_tprd_chain1_l, f_tprd_chain1, D_tprd_chain1_l, D_tprd_chain1) ltac:(idtac). Qed.
+Proof. unfold tprd_chain_stmt1. jac_t 600 ltac:(lazy beta iota zeta delta [upd nthR List.firstn List.skipn List.app List.nth Nat.mul Nat.add f_tprd_chain1_l f_tprd_chain1 D_tprd_chain1_l D_tprd_chain1]) ltac:(idtac). Qed.
 Lemma tprd_chain_ok2 : tprd_chain_stmt2.
-Proof. unfold tprd_chain_stmt2. jac ltac:(unfold f_tprd_chain2_l, f_tprd_chain2, D_tprd_chain2_l, D_tprd_chain2) ltac:(idtac). Qed.
-Lemma tprd_chain_ok3 : tprd_chain_stmt3.
-Proof. unfold tprd_chain_stmt3. jac ltac:(unfold f_tprd_chain3_l, f_tprd_chain3, D_tprd_chain3_l, D_tprd_chain3) ltac:(idtac). Qed.
+Proof. unfold tprd_chain_stmt2. jac_t 600 ltac:(lazy beta iota zeta delta [upd nthR List.firstn List.skipn List.app List.nth Nat.mul Nat.add f_tprd_chain2_l f_tprd_chain2 D_tprd_chain2_l D_tprd_chain2]) ltac:(idtac). Qed.
 Lemma st2tot2_tprd_chain_ok1 : st2tot2_tprd_chain_stmt1.
-Proof. unfold st2tot2_tprd_chain_stmt1. jac ltac:(unfold f_st2tot2_tprd_chain1_l, f_st2tot2_tprd_chain1, D_st2tot2_tprd_chain1_l, D_st2tot2_tprd_chain1) ltac:(idtac). Qed.
+Proof. unfold st2tot2_tprd_chain_stmt1. jac_t 600 ltac:(lazy beta iota zeta delta [upd nthR List.firstn List.skipn List.app List.nth Nat.mul Nat.add f_st2tot2_tprd_chain1_l f_st2tot2_tprd_chain1 D_st2tot2_tprd_chain1_l D_st2tot2_tprd_chain1]) ltac:(idtac). Qed.
 Lemma st2tot2_tprd_chain_ok2 : st2tot2_tprd_chain_stmt2.
-Proof. unfold st2tot2_tprd_chain_stmt2. jac ltac:(unfold f_st2tot2_tprd_chain2_l, f_st2tot2_tprd_chain2, D_st2tot2_tprd_chain2_l, D_st2tot2_tprd_chain2) ltac:(idtac). Qed.
+Proof. unfold st2tot2_tprd_chain_stmt2. jac_t 600 ltac:(lazy beta iota zeta delta [upd nthR List.firstn List.skipn List.app List.nth Nat.mul Nat.add f_st2tot2_tprd_chain2_l f_st2tot2_tprd_chain2 D_st2tot2_tprd_chain2_l D_st2tot2_tprd_chain2]) ltac:(idtac). Qed.
 Lemma st2tot2_tprd_chain_ok3 : st2tot2_tprd_chain_stmt3.
-Proof. unfold st2tot2_tprd_chain_stmt3. jac ltac:(unfold f_st2tot2_tprd_chain3_l, f_st2tot2_tprd_chain3, D_st2tot2_tprd_chain3_l, D_st2tot2_tprd_chain3) ltac:(idtac). Qed.
+Proof. unfold st2tot2_tprd_chain_stmt3. jac_t 3000 ltac:(lazy beta iota zeta delta [upd nthR List.firstn List.skipn List.app List.nth Nat.mul Nat.add f_st2tot2_tprd_chain3_l f_st2tot2_tprd_chain3 D_st2tot2_tprd_chain3_l D_st2tot2_tprd_chain3]) ltac:(idtac). Qed.
